@@ -3,12 +3,9 @@ package clustal
 import (
 	"bufio"
 	"bytes"
-	"errors"
 	"io"
 	"strconv"
 	"strings"
-
-	alignio "github.com/evolbioinfo/goalign/io"
 )
 
 // Scanner represents a lexical scanner.
@@ -69,7 +66,8 @@ func (s *Scanner) Scan() (tok Token, lit string) {
 			if isNL(ch) {
 				return ENDOFLINE, ""
 			}
-			alignio.ExitWithMessage(errors.New("\\r without \\n detected"))
+			// \r without \n: not a valid end of line
+			return ILLEGAL, string(ch)
 		} else {
 			return ENDOFLINE, ""
 		}
